@@ -104,9 +104,20 @@ def setup(root, case):
     os.makedirs(os.path.join(root, "q", os.path.dirname(case["qname"])), exist_ok=True)
     if case["placement"] == "outdir":
         os.makedirs(os.path.join(root, "out"))
-    open(os.path.join(root, "schema.graphql"), "w").write("type Query { " if case["program"] == "badSchema" else SCHEMA)
-    if case["program"] != "missingQuery":
-        open(os.path.join(root, "q", case["qname"]), "w").write(QUERY_INVALID if case["program"] == "invalidQuery" else QUERY_VALID)
+    stext = "type Query { " if case["program"] == "badSchema" else SCHEMA
+    qtext = QUERY_INVALID if case["program"] == "invalidQuery" else QUERY_VALID
+    if case["qname"] == "link.graphql":
+        # both inputs are symbolic links into a content-addressed store (other names, no extension)
+        os.makedirs(os.path.join(root, "store"))
+        open(os.path.join(root, "store", "5c3a9f"), "w").write(stext)
+        os.symlink(os.path.join("store", "5c3a9f"), os.path.join(root, "schema.graphql"))
+        if case["program"] != "missingQuery":
+            open(os.path.join(root, "store", "3f9a1c07"), "w").write(qtext)
+            os.symlink(os.path.join("..", "store", "3f9a1c07"), os.path.join(root, "q", case["qname"]))
+    else:
+        open(os.path.join(root, "schema.graphql"), "w").write(stext)
+        if case["program"] != "missingQuery":
+            open(os.path.join(root, "q", case["qname"]), "w").write(qtext)
     # neighbours that must not be touched
     open(os.path.join(root, "q", "keep.rs"), "w").write("// keep\n")
     open(os.path.join(root, "q", "ops.txt"), "w").write("keep\n")
